@@ -63,7 +63,7 @@ fn ledger_drop(s: u64) {
 
 /// How `Tracked` writes its text into the formatter: 0 whole, 1 per line (newline attached to the
 /// line before), 2 per byte, 3 split just before each '\n', 4 split just after each '\n' with the
-/// newline on its own.
+/// newline on its own, 5 one `write_char` per character.
 pub fn set_frag(mode: u8) {
     FRAG.with(|f| f.set(mode));
 }
@@ -82,7 +82,12 @@ pub fn tracked_lines(val: u32, mode: u8) -> Vec<String> {
     let lead = (val >> 3) & 1 == 1;
     // an empty *first* line is inside the statement's domain too ("\nx": non-empty, no final newline)
     let empty_first = (val >> 4) & 3 == 3 && nlines >= 2;
-    let tag = ["p", "P", "d", "D"][mode as usize & 3];
+    // one payload in eight renders with multi-byte characters (before and after newlines)
+    let tag = if (val >> 6) & 7 == 7 {
+        ["p\u{e9}", "P\u{65e5}\u{672c}", "d\u{e9}\u{e9}", "D\u{8a9e}"][mode as usize & 3]
+    } else {
+        ["p", "P", "d", "D"][mode as usize & 3]
+    };
     let mut v = Vec::new();
     for i in 0..nlines {
         if (i == 1 && empty_mid) || (i == 0 && empty_first) {
@@ -148,6 +153,14 @@ impl Tracked {
                     // also hand over empty strings: legal for fmt::Write
                     f.write_str(piece)?;
                     f.write_str("")?;
+                }
+                Ok(())
+            }
+            5 => {
+                // Formatter::write_char for every character, newlines included
+                use fmt::Write as _;
+                for c in text.chars() {
+                    f.write_char(c)?;
                 }
                 Ok(())
             }
@@ -308,6 +321,31 @@ impl Payload for Big {
     }
     fn canon(&self) -> String {
         format!("{}:{}:{}", self.0[0], self.0[1], self.0[31])
+    }
+    fn canon_of(val: u32) -> String {
+        Self::make(val).canon()
+    }
+}
+
+/// a payload that serialises to `null` for some values (transparent `Option`)
+#[derive(Clone, PartialEq, Eq, Debug)]
+#[cfg_attr(feature = "ix-deser", derive(serde::Serialize, serde::Deserialize))]
+pub struct Opt(pub Option<u32>);
+impl fmt::Display for Opt {
+    fn fmt(&self, f: &mut fmt::Formatter<'_>) -> fmt::Result {
+        match self.0 {
+            None => f.write_str("none"),
+            Some(v) => write!(f, "some{}", v),
+        }
+    }
+}
+impl Payload for Opt {
+    const NAME: &'static str = "opt";
+    fn make(val: u32) -> Self {
+        Opt(if val % 3 == 0 { None } else { Some(val) })
+    }
+    fn canon(&self) -> String {
+        format!("{:?}", self.0)
     }
     fn canon_of(val: u32) -> String {
         Self::make(val).canon()
